@@ -24,6 +24,9 @@ for p in props:
       f"IMPORTANT: other engineers already delivered the following {len(earlier)} change(s) for this property; yours must be clearly DIFFERENT from all of them — a different function or mechanism, "
       "preferably exercising a different clause of the property statement, a different entry point/command, or a different anchored file:\n"+
       "\n".join(f"({i+1}) {e}" for i,e in enumerate(earlier)))
+    if int(rnd) >= 4:
+        launch += ("\nSTYLE FOR THIS ROUND: make the change MINIMAL — one to three lines of the kind a classical mutation or a careless edit produces: a changed comparison operator or boundary (< vs <=, off-by-one), a changed constant, a dropped or inverted condition, a swapped argument or wrong variable, a removed statement, an early return, a wrong default — placed in code on the property's data path (it may be a helper OUTSIDE the anchored files that the anchored code calls). It must still need a specific input/sequence/fault to show and must pass the existing suite. "
+                   "The machine is heavily loaded: run the full test suite only once with your final change (and at most once on the pristine tree); keep the demonstration fast (< 1 minute).")
     open(f'/tmp/mutprompts/{p}.r{rnd}.launch','w').write(launch)
     if not os.path.isdir(wt):
         subprocess.run(['git','-C','/repo','worktree','add','--detach','-q',wt,'HEAD'],check=True)
